@@ -99,8 +99,17 @@ structure EnumDecl where
   options : List String
   deriving DecidableEq, Repr, Inhabited
 
-/-- Opaque list-rules payload (filter / sort / search settings); `none` = absent or all-zero. -/
-abbrev ListRules := Option String
+/-- The list-rules message of a field (filter / sort / search settings). `text` is the whole
+message in the canonical spelling of the line protocol, opaque to writer and reader (both copy it
+verbatim); `defaultFilters` is the one member the writer inspects: for an enum field
+`filtering.defaultFilters` must name options of the enum (`[]` when `filtering` is absent). -/
+structure LRPayload where
+  text : String
+  defaultFilters : List String := []
+  deriving DecidableEq, Repr, Inhabited
+
+/-- `none` = list-rules message absent -/
+abbrev ListRules := Option LRPayload
 
 /-- The schema of a non-array field (`schema.Field` minus array/map). -/
 inductive Schema where
@@ -254,20 +263,20 @@ inductive FkSlot where
   | uniqueString | id62 | uuid
   deriving DecidableEq, Repr, Inhabited
 
-/-- `(j5.list.v1.field)`: slot + opaque payload -/
+/-- `(j5.list.v1.field)`: slot + payload -/
 inductive ListExt where
-  | int (fmt : IntFormat) (p : String)
-  | float (p : String)
-  | double (p : String)
-  | bool (p : String)
-  | openText (p : String)
-  | foreignKey (slot : FkSlot) (p : String)
-  | enum (p : String)
-  | oneof (p : String)
-  | timestamp (p : String)
-  | date (p : String)
-  | decimal (p : String)
-  | any (p : String)
+  | int (fmt : IntFormat) (p : LRPayload)
+  | float (p : LRPayload)
+  | double (p : LRPayload)
+  | bool (p : LRPayload)
+  | openText (p : LRPayload)
+  | foreignKey (slot : FkSlot) (p : LRPayload)
+  | enum (p : LRPayload)
+  | oneof (p : LRPayload)
+  | timestamp (p : LRPayload)
+  | date (p : LRPayload)
+  | decimal (p : LRPayload)
+  | any (p : LRPayload)
   deriving DecidableEq, Repr, Inhabited
 
 /-- `(j5.ext.v1.key)` PSMKeyFieldOptions -/
